@@ -19,6 +19,7 @@ from vlib.common import digest, HarnessError
 from vlib.hjmc import GuardedLog, LETTER, Model, new_comp, internal, observable, monitor_c03, monitor_c08
 
 _L = {}        # the level being expanded, inherited by forked workers
+MAX_LEVEL = 150000
 PAR_MIN = 600  # levels smaller than this are expanded in the calling process
 
 
@@ -128,6 +129,8 @@ def explore_round(starts, bar, seqs, order, st, viol, prefix_of):
                                          'the same trials taken in the order %s show another state/places' % (hjmc.fmt_hist(seen[1][len(prefix_of):]),)))
             st['nodes'] += len(nxt)
             st['positions'] += len(obs_at)
+            if len(nxt) > MAX_LEVEL:
+                raise HarnessError('jumping-order DAG too large (%d nodes in one level): use deviate_card for this card' % len(nxt))
             if len(nxt) != len(obs_at):
                 cnt = {}
                 for k in nxt:
@@ -221,6 +224,14 @@ def _synthetic_work(chunk):
             orders *= n_orders(seqs)
             states = explore_round(states, hjmc.FIRST_HEIGHT + r, seqs, order, st, viol, [])
         monitors(states, viol, st, want)
+        # closing height: everybody still in fails out (three consecutive failures), so that ties for first end in a jump-off or a draw
+        if states:
+            m0 = pickle.loads(next(iter(states.values()))[1])
+            if m0.phase in ('started', 'won'):
+                seqs = {b: 'x' * (3 - hjmodel.consecutive_failures(m0.cards[b])) for b in m0.alive_regular()}
+                orders *= n_orders(seqs)
+                states = explore_round(states, hjmc.FIRST_HEIGHT + R, seqs, order, st, viol, [])
+                monitors(states, viol, st, want)
         st['competitions'] += 1
         st['orders_covered'] += orders
 
@@ -240,7 +251,8 @@ def _synthetic_work(chunk):
                         seqs = {b: o for b, o in zip(alive, outs)}
                         st['orders_covered'] += n_orders(seqs)
                         ends = explore_round({key: (pick, mpick, path)}, bar, seqs, order, st, viol, [])
-                        monitors(ends, viol, st, want)
+                        # replay / round-trip / place monitors on decided competitions and at the depth bound (intermediate jump-off states of small fields are the BFS's)
+                        monitors({k: v for k, v in ends.items() if depth + 1 >= J or pickle.loads(v[1]).phase != 'jumpoff'}, viol, st, want)
                         jo(ends, depth + 1)
         jo(states, 0)
         if len(viol) > 40:
@@ -271,3 +283,138 @@ def synthetic(n, R, J, deltas=(0, -1, 1), per=1, limit=None, want=('C03', 'C08')
     tot['reduced_cards'] = len(cards)
     tot['phases_after_regular_heights'] = sorted(outcomes)
     return tot, viol
+
+
+# ------------------------------------------------------------------------------------------------
+# large fields: jumping orders within a bounded number of deviations from the round-robin order (merging by internal state does not help there: the
+# order of tied athletes inside the ranking list differs from path to path, so the DAG above grows with the factorial of the field size)
+
+def _rr_next(bibs, pos, seqs, last):
+    """default scheduler: the next athlete after `last` (cyclically, in start order) who still has a trial at this height"""
+    n = len(bibs)
+    start = (bibs.index(last) + 1) if last in bibs else 0
+    for d in range(n):
+        b = bibs[(start + d) % n]
+        if pos[b] < len(seqs[b]):
+            return b
+    return None
+
+
+def _dev_work(chunk):
+    card, k, items = chunk
+    st, viol = new_stats(), []
+    ref = _G_DEV['ref']
+    for item in items:
+        _dev_run(card, k, item, ref, st, viol)
+        if len(viol) > 30:
+            break
+    return st, viol[:30]
+
+
+_G_DEV = {}
+
+
+def _dev_run(card, k, forced, ref, st, viol, collect=None):
+    """one complete execution of the card: `forced` = {global trial index: bib} are the deviations (everything else round-robin).  With collect (a list)
+    the function records, for every trial index, the athletes that could have jumped instead (used to enumerate the next deviation level)."""
+    bibs = [b for b, _ in card['cards']]
+    order, states = start(bibs)
+    (pick, mpick, path), = states.values()
+    comp, model = pickle.loads(pick), pickle.loads(mpick)
+    RuleViolation = hjmc.RV()
+    idx = 0
+    ends = []
+    for hi, h in enumerate(card['heights']):
+        if comp.state in ('finished', 'drawn'):
+            break
+        seqs = {b: (cs[hi] if hi < len(cs) else '') for b, cs in card['cards']}
+        call = ('bar', Decimal(h))
+        err = apply(comp, call, order)
+        if err is not None:
+            if model.allowed(call) is True:
+                viol.append(('O1:bar-refused', path + [call], 'refused: %r' % (err,)))
+            return None
+        model.step(call, comp.state)
+        path = path + [call]
+        pos = {b: 0 for b in bibs}
+        last = None
+        while True:
+            b = _rr_next(bibs, pos, seqs, last)
+            if b is None:
+                break
+            if collect is not None:
+                collect.append((idx, [x for x in bibs if x != b and pos[x] < len(seqs[x])]))
+            if idx in forced:
+                b = forced[idx]
+            call = (seqs[b][pos[b]], b)
+            allowed = model.allowed(call)
+            err = apply(comp, call, order)
+            st['calls'] += 1
+            if err is not None:
+                if allowed is True:
+                    sig = 'O1:trial-refused-in-some-jumping-order' if isinstance(err, RuleViolation) else 'O1:trial-raises-%s-in-some-jumping-order' % type(err).__name__
+                    viol.append((sig, path + [call], 'refused: %r' % (err,)))
+                return None
+            model.step(call, comp.state)
+            path = path + [call]
+            if model.irregular == 0 and comp.state != model.phase:
+                viol.append(('O3:phase-differs:%s-vs-model-%s' % (comp.state, model.phase), path, 'implementation %s, rules %s' % (comp.state, model.phase)))
+                return None
+            pos[b] += 1
+            last = b
+            idx += 1
+        od = _obs_digest(comp)
+        ends.append(od)
+        if ref is not None and hi < len(ref) and ref[hi] != od:
+            viol.append(('O2:same-cards-different-observable-in-another-jumping-order', path,
+                         'after height %s the state/places differ from those of the round-robin order of the same card' % h))
+            return None
+    st['nodes'] += 1
+    if GuardedLog.reads:
+        raise HarnessError('a transition read the action log')
+    if ref is None:
+        for sig, _, msg in monitor_c03(comp, model) + monitor_c08(comp, model):
+            viol.append((sig.replace('C03:', ''), path, msg))
+    return ends
+
+
+def deviate_card(card, k):
+    """every jumping order of the card that differs from round-robin in at most k places (a place = one trial given to another athlete who has a trial
+    left at that height; the rest of the order follows round-robin from there)"""
+    st, viol = new_stats(), []
+    alts = []
+    ref = _dev_run(card, k, {}, None, st, viol, collect=alts)
+    if ref is None:
+        return st, viol
+    _G_DEV['ref'] = ref
+    level = [dict()]
+    total = 1
+    for depth in range(k):
+        items = []
+        for forced in level:
+            # alternatives after the last forced index only (each set of deviations once)
+            lo = max(forced) + 1 if forced else 0
+            a2 = []
+            if forced:
+                _dev_run(card, k, forced, ref, new_stats(), [], collect=a2)
+            else:
+                a2 = alts
+            for idx, others in a2:
+                if idx >= lo:
+                    for b in others:
+                        f = dict(forced)
+                        f[idx] = b
+                        items.append(f)
+        n = max(1, min(len(items), common.NPROC * 4))
+        res = common.pmap(_dev_work, [(card, k, items[i::n]) for i in range(n)]) if len(items) > 200 else [_dev_work((card, k, items))]
+        for s2, vs in res:
+            for kk, v in s2.items():
+                if isinstance(v, int) and not kk.startswith('max_'):
+                    st[kk] += v
+            viol.extend(vs)
+        total += len(items)
+        level = items
+    st['competitions'] += 1
+    st['orders_covered'] += total
+    st['deviation_bound'] = k
+    return st, viol
